@@ -101,17 +101,47 @@ func (e *Enc) call(f *frame, c *ssa.CallCommon, instr *ssa.Call, pos token.Pos) 
 				}
 			}
 		}
+		var afterHooks []CallAssert
+		dispAfter := typeKey(c.Value.Type()) + "." + c.Method.Name()
+		if f.con != nil {
+			nAfter := f.ncallAll[dispAfter] - 1 // this call's ordinal (counted above when hooks exist)
+			for _, ca := range f.con.CallAsserts {
+				if ca.Callee == dispAfter && ca.N == nAfter && ca.After {
+					afterHooks = append(afterHooks, ca)
+				}
+			}
+		}
+		finish := func(r Val) Val {
+			for _, ca := range afterHooks {
+				env := e.cellEnv(f, pos, e.cur)
+				res := c.Signature().Results()
+				if t, ok := r.(Tup); ok {
+					for i, v := range t.V {
+						env.names[fmt.Sprintf("ret%d", i)] = TV{V: v, Ty: res.At(i).Type()}
+					}
+				} else if r != nil && res.Len() == 1 {
+					env.names["ret0"] = TV{V: r, Ty: res.At(0).Type()}
+				}
+				tv := e.evalClauseVal(env, ca.Clause)
+				v, _ := e.materialize(env, tv, types.Typ[types.Uint64])
+				e.setVar("G|"+ca.Var, e.scalar(v, SBV64))
+				if e.dry == 0 {
+					f.assertsSeen[fmt.Sprintf("%s#%d", ca.Callee, ca.N)] = true
+				}
+			}
+			return r
+		}
 		if con := e.L.Contracts.ByKey["|"+key]; con != nil {
-			return pack(e.applyContract(f, con, key, append([]Val{recv}, args...), c.Signature(), nil, pos))
+			return finish(pack(e.applyContract(f, con, key, append([]Val{recv}, args...), c.Signature(), nil, pos)))
 		}
 		full := "(" + types.TypeString(c.Value.Type(), nil) + ")." + c.Method.Name()
 		if isPureName(full) || c.Method.Name() == "Error" {
 			e.noteTrusted("pure:" + full)
-			return freshResults(c.Method.Name())
+			return finish(freshResults(c.Method.Name()))
 		}
 		e.abstract("invoke:" + full)
 		e.havocAll("invoke " + full)
-		return freshResults(c.Method.Name())
+		return finish(freshResults(c.Method.Name()))
 	}
 
 	switch fv := c.Value.(type) {
